@@ -7,7 +7,7 @@ import z3
 import numpy as np
 from symex import core as sc, symnp
 from symex.core import mk
-from symex.runner import Obligation
+from symex.runner import Obligation, world
 from . import common as C
 from .common import F
 
@@ -80,7 +80,7 @@ def make(oid, n_face, n_max, n_node, order="A", sizes=None, fixed=None, tiers=("
                     cl.append(z3.Implies(k < ne, z3.Not(z3.Or(z3.And(E[i][0] == E[k][0], E[i][1] == E[k][1]),
                                                               z3.And(E[i][0] == E[k][1], E[i][1] == E[k][0])))))
             ctx.prove("rows:edge_node exact set", z3.And(*cl))
-        if fixed is not None and getattr(fixed, "closed", False):
+        if fixed is not None and getattr(fixed, "closed", False) and part in (None, "euler"):
             ctx.prove("euler", n_node - ne + n_face == 2)
 
     def replay(vals):
@@ -109,6 +109,55 @@ _TABLES = [
     [[0, 1, 2, 3, 4, 5]],
     [[2, 0, 1], [1, 0, 3], [3, 0, 2], [1, 3, 2]],
 ]
+
+
+def make_history(oid, n_face, n_max, n_node, tiers=("quick", "thorough")):
+    """a second grid's edge tables do not depend on a grid whose edges were derived before in the same process"""
+    lon, lat = C.default_lonlat(n_node)
+
+    def setup(ctx):
+        fa, na = C.sym_face_table(ctx, n_face, n_max, n_node, prefix="fa")
+        fn, nf = C.sym_face_table(ctx, n_face, n_max, n_node, prefix="fn")
+        return fa, fn, nf
+
+    def run(ctx, inp):
+        fa, fn, nf = inp
+        symnp.UNIQUE_MODE[0] = "relational"
+        symnp.CAP[0] = n_face * n_max
+        g0 = C.clone_grid(C.sarr_int(fa), lon, lat)
+        g0.face_edge_connectivity, g0.n_edge
+        g = C.clone_grid(C.sarr_int(fn), lon, lat)
+        en, fe, n_edge, nnpf = g.edge_node_connectivity.values, g.face_edge_connectivity.values, g.n_edge, g.n_nodes_per_face.values
+        ne = sc.lift(n_edge)
+        enr = en.raw()
+        cap = enr.shape_cap[0]
+        E = [[sc.lift(enr[i, 0]), sc.lift(enr[i, 1])] for i in range(cap)]
+        cl = []
+        for f in range(n_face):
+            cl.append(sc.lift(nnpf[f]) == nf[f])
+            for j in range(n_max):
+                a, b = fn[f][j], _nxt(fn, nf, f, j, n_max)
+                fej = sc.lift(fe[f, j])
+                hit = z3.Or(*[z3.And(fej == i, z3.Or(z3.And(E[i][0] == a, E[i][1] == b), z3.And(E[i][0] == b, E[i][1] == a))) for i in range(cap)])
+                cl.append(z3.If(j < nf[f], z3.And(fej >= 0, fej < ne, hit), fej == F))
+        for i in range(cap):
+            for k in range(i + 1, cap):
+                cl.append(z3.Implies(k < ne, z3.Not(z3.Or(z3.And(E[i][0] == E[k][0], E[i][1] == E[k][1]), z3.And(E[i][0] == E[k][1], E[i][1] == E[k][0])))))
+        ctx.prove("second grid: edge tables are those of its own faces", z3.And(*cl))
+
+    def replay(vals):
+        g0 = C.real_grid(C.model_table(vals, "fa"), lon, lat)
+        g0.face_edge_connectivity, g0.n_edge
+        rows = C.model_table(vals, "fn")
+        g = C.real_grid(rows, lon, lat)
+        r = C.check_edge_tables(rows, g.edge_node_connectivity.values, g.face_edge_connectivity.values, g.n_edge, g.n_nodes_per_face.values, n_max)
+        if r:
+            return r + f" (after deriving edges of another grid {C.model_table(vals, 'fa')})"
+        return None
+
+    return Obligation(oid, f"history: edges of a second grid after another grid's edges were derived ({n_face} faces x {n_max})", setup, run, replay,
+                      exact=True, functions=FUNCS, bounds=f"two grids of {n_face} faces x <= {n_max} corners, nodes < {n_node}", tiers=tiers, cost=3,
+                      timeout_s=3000, query_timeout_s=1500)
 
 
 def _validate_shim(order):
@@ -178,8 +227,12 @@ def obligations(tier):
         make("C02.grid.2f4.A.faces", 2, 4, 6, "A", part="faces", cost=6),
         make("C02.grid.2f4.A.rows", 2, 4, 6, "A", part="rows", cost=6),
         make("C02.grid.2f4.B.faces", 2, 4, 6, "B", part="faces", cost=6),
-        make("C02.grid.3f3.A", 3, 3, 5, "A", cost=7),
-        make("C02.grid.tetra.A", 4, 3, 4, "A", fixed=_tetra, cost=7, title="tetrahedron, every numbering and start corner symbolic (+ Euler)"),
+        make("C02.grid.3f3.A.faces", 3, 3, 5, "A", part="faces", cost=7),
+        make("C02.grid.3f3.A.rows", 3, 3, 5, "A", part="rows", cost=7),
+        make("C02.grid.tetra.A.faces", 4, 3, 4, "A", fixed=_tetra, part="faces", cost=9, title="tetrahedron, every numbering and start corner symbolic: face_edge rows"),
+        make("C02.grid.tetra.A.rows", 4, 3, 4, "A", fixed=_tetra, part="rows", cost=9, title="tetrahedron, every numbering and start corner symbolic: edge rows"),
+        make("C02.grid.tetra.A.euler", 4, 3, 4, "A", fixed=_tetra, part="euler", cost=9, title="tetrahedron, every numbering and start corner symbolic: n_node - n_edge + n_face = 2"),
+        make_history("C02.history.2f3", 2, 3, 4),
         make("C02.grid.2f5.A", 2, 5, 8, "A", tiers=("thorough",), cost=20),
         make("C02.grid.2f4.rank", 2, 4, 6, "A", tiers=("thorough",), unique_mode="rank", cost=20,
              title="cross-check with the functional (rank-by-counting) encoding of np.unique"),
